@@ -32,11 +32,13 @@ def units(tier):
         # random histories around add_eltorito / rm_eltorito on random image flavours (concrete contents)
         us.append(Unit(B.BootImage, {'history': 'random:%d' % (base + k)}))
         us.append(Unit(B.BootImage, {'history': 'random:%d' % (base + k), 'reopen': True}))
+        us.append(Unit(B.BootImage, {'history': 'random:%d' % (base + k), 'reopen': 'edit'}))
     for h in sorted(B.HISTORIES):
         if h == 'floppy' and tier == 'quick':
             continue        # a 1.44 MB image: thorough tier only
         us.append(Unit(B.BootImage, {'history': h}))
         us.append(Unit(B.BootImage, {'history': h, 'reopen': True}))
+        us.append(Unit(B.BootImage, {'history': h, 'reopen': 'edit'}))
     return us
 
 
@@ -59,7 +61,7 @@ META = {
         'reading the catalog / the patched boot file back through get_file_from_iso_fp (the image bytes are checked, not the read-back API)',
         'hdmbrcheck and the hard-disk emulation path of add_eltorito',
     ],
-    'bounded': ['11 El Torito histories + 4 random ones (thorough: 40) x (fresh, reopened)'],
+    'bounded': ['11 El Torito histories + 4 random ones (thorough: 40) x (fresh, reopened, reopened and edited so that the boot files move)'],
 }
 
 MANIFEST = {
